@@ -564,6 +564,7 @@ def run(ctx):
     lognormal_history_section(ctx, D, rng, S)
     mrf_history_section(ctx, D, G, rng, S)
     gauss_scale_section(ctx, D, rng, S)
+    dtype_section(ctx, D, G, rng, S)
     gauss_structured_bigdim_section(ctx, D, rng, S, thorough)
 
     # =================================================================== 6. normalisation by quadrature
@@ -1497,6 +1498,270 @@ def gauss_structured_bigdim_section(ctx, D, rng, S, thorough):
                 fail = (float(ld), fnum(g.logdet), "log-determinant of the covariance is wrong")
         verdict(ctx, key, desc, not mism, (out or "float64 reference only")[:100], mism, fail,
                 "structured dense Gaussian, dim > 75: model and implementation differ: " + "; ".join(mism))
+
+
+# ------------------------------------------------------------------------------------------------ dtypes
+F32TOL = 2e-5      # float32 parameters make numpy compute in single precision (eps 6e-8; eigh / logs at dim 80): relative tolerance
+SCALAR_VARIANTS = [("pyint", lambda v: int(v)), ("np.int64", lambda v: np.int64(v)), ("np.int32", lambda v: np.int32(v)),
+                   ("np.float32", lambda v: np.float32(v)), ("len1-int-array", lambda v: np.array([int(v)])),
+                   ("0d-int-array", lambda v: np.array(int(v))), ("0d-float-array", lambda v: np.array(float(v)))]
+VECTOR_VARIANTS = [("int-list", lambda v: [int(t) for t in v]), ("int64-array", lambda v: np.array(v).astype(np.int64)),
+                   ("int32-array", lambda v: np.array(v).astype(np.int32)), ("float32-array", lambda v: np.array(v).astype(np.float32))]
+
+
+def dtype_section(ctx, D, G, rng, S):
+    """The same numbers passed as Python ints, numpy integer scalars, integer lists / arrays / sparse matrices, float32
+    and 0-d arrays must give the log-density of the float64 version (the model's parameters are rationals: it does
+    not care), for every family and parameter, on both sides of the sparse threshold for the Gaussian forms, and the
+    four Gaussian parameterisations of one covariance must agree.  Integer evaluation points as well."""
+    zd = dict(zip(["gaussian", "uniform", "laplace", "lognormal", "gmrf", "lmrf", "cmrf", "normal", "gamma", "cauchy", "beta", "invgamma", "smoothedlaplace"],
+                  ctx.lean.drive([f"zerodim {f}" for f in ["gaussian", "uniform", "laplace", "lognormal", "gmrf", "lmrf", "cmrf", "normal", "gamma", "cauchy", "beta", "invgamma", "smoothedlaplace"]])))
+
+    def evaluate(make, x, what=("logpdf", "pdf", "logd", "cdf")):
+        """dict of the values the object offers at x (missing / raising entries -> ('raise', cls))"""
+        try:
+            with quiet():
+                d = make()
+        except Exception as e:  # noqa
+            return {"ctor": ("raise", type(e).__name__)}
+        out = {}
+        for w in what:
+            if hasattr(d, w):
+                out[w] = call(lambda: getattr(d, w)(x))
+        return out
+
+    def compare(key, desc, base, got, tol, model_val=None, model_raises=False, skip=()):
+        mism, fail = [], None
+        if "ctor" in got or got.get("logpdf", ("value",))[0] == "raise":
+            why = got.get("ctor", got.get("logpdf"))
+            if not model_raises:
+                mism.append(f"model: value; implementation raises {why[1]}")
+            fail = (base.get("logpdf"), f"raises {why[1]}", "no log-density for this way (dtype) of passing the same numbers")
+            verdict(ctx, key + (":raises" if model_raises else ""), desc, not mism, "value" if not model_raises else "raise", mism, fail,
+                    "dtype: model and implementation differ: " + "; ".join(mism))
+            return
+        if model_raises:
+            mism.append("model: refused; implementation returns a value")
+        for w, (st, v) in got.items():
+            if w in skip or w not in base or base[w][0] != "value":
+                continue
+            if st != "value" or not relclose(base[w][1], v, tol):
+                fail = fail or (base[w][1], [st, v], f"{w} differs from the value for the float64 version of the same numbers")
+        if model_val is not None and got["logpdf"][0] == "value" and not relclose(model_val, got["logpdf"][1], max(tol, 1e-8)):  # float32: F32TOL
+            mism.append(f"logpdf {got['logpdf'][1]} vs model {model_val}")
+        verdict(ctx, key, desc, not mism, model_val, mism, fail, "dtype: model and implementation differ: " + "; ".join(mism))
+
+    # ---------------------------------------------------------------- i.i.d. families, MRFs, Lognormal
+    # integer-valued valid parameters: (family key, class, names, scalar-like params, designated 0-d parameter index)
+    def base_params(fam, n):
+        r = lambda a, b: float(rng.randint(a, b))
+        vec = lambda a, b: [r(a, b) for _ in range(n)]
+        if fam == "normal":
+            return [vec(-2, 2), vec(1, 3)], [x / 4 for x in range(-6, 7)]
+        if fam == "laplace":
+            return [vec(-2, 2), [r(1, 3)]], None
+        if fam == "smoothedlaplace":
+            return [vec(-2, 2), vec(1, 3), [r(1, 2)]], None
+        if fam == "cauchy":
+            return [vec(-2, 2), vec(1, 3)], None
+        if fam == "gamma":
+            return [vec(1, 4), vec(1, 3)], None
+        if fam == "invgamma":
+            return [vec(1, 4), vec(-2, 0), vec(1, 3)], None
+        if fam == "beta":
+            return [vec(1, 4), vec(1, 4)], None
+        if fam == "uniform":
+            return [vec(-3, 0), vec(2, 5)], None
+        raise ValueError(fam)
+    NAMES = {"normal": ["mean", "std"], "laplace": ["location", "scale"], "smoothedlaplace": ["location", "scale", "beta"],
+             "cauchy": ["location", "scale"], "gamma": ["shape", "rate"], "invgamma": ["shape", "location", "scale"],
+             "beta": ["alpha", "beta"], "uniform": ["low", "high"]}
+    CLASS = {"normal": D.Normal, "laplace": D.Laplace, "smoothedlaplace": D.SmoothedLaplace, "cauchy": D.Cauchy, "gamma": D.Gamma,
+             "invgamma": D.InverseGamma, "beta": D.Beta, "uniform": D.Uniform}
+    jobs, lines = [], []
+    for fam in NAMES:
+        for rep in range(1 * S):
+            n = rng.choice([2, 3])
+            p, _ = base_params(fam, n)
+            if fam == "beta":
+                x = [rng.randint(2, 30) / 32 for _ in range(n)]
+            elif fam == "uniform":
+                x = [p[0][j] + (p[1][j] - p[0][j]) * rng.randint(1, 7) / 8 for j in range(n)]
+            elif fam == "invgamma":
+                x = [p[1][j] + float(rng.randint(1, 4)) for j in range(n)]
+            elif fam == "gamma":
+                x = [float(rng.randint(1, 5)) for _ in range(n)]
+            else:
+                x = [float(rng.randint(-3, 4)) for _ in range(n)]
+            modes = ("".join("s" if len(v) == 1 else "a" for v in p) + "---")[:3]
+            pv = [qv(v) for v in p] + ["-", "-"]
+            lines.append(f"iid {fam} {n} {modes} {qv(x)} {pv[0]} {pv[1]} {pv[2]}")
+            # the same with every vector parameter replaced by its first entry (scalar broadcast), for the scalar variants
+            ps = [[v[0]] for v in p]
+            if fam == "uniform":
+                xs = [ps[0][0] + (ps[1][0] - ps[0][0]) * rng.randint(1, 7) / 8 for _ in range(n)]
+            elif fam == "invgamma":
+                xs = [ps[1][0] + float(rng.randint(1, 4)) for _ in range(n)]
+            else:
+                xs = list(x)
+            lines.append(f"iid {fam} {n} sss {qv(xs)} {qv(ps[0])} {qv(ps[1])} {qv(ps[2]) if len(ps) > 2 else '-'}")
+            jobs.append((fam, n, p, x, ps, xs))
+    outs = iter(ctx.lean.drive(lines))
+    for fam, n, p, x, ps, xs in jobs:
+        o_vec, o_sc = next(outs), next(outs)
+        cls, names = CLASS[fam], NAMES[fam]
+        mv = dec(o_vec.split()[1]) if o_vec.startswith("formula") else None
+        ms = dec(o_sc.split()[1]) if o_sc.startswith("formula") else None
+        xa, xsa = np.array(x), np.array(xs)
+        fobj = lambda v: float(v[0]) if len(v) == 1 else np.array(v, dtype=float)
+        base_v = evaluate(lambda: cls(**dict(zip(names, [fobj(v) for v in p])), geometry=n), xa)
+        base_s = evaluate(lambda: cls(**dict(zip(names, [float(v[0]) for v in ps])), geometry=n), xsa)
+        skip = ("cdf",) if fam == "cauchy" else ()          # Cauchy.cdf for dim>1 is a recorded finding; dtype does not change it
+        for label, conv in VECTOR_VARIANTS:
+            if label == "int-list" and fam in ("normal", "uniform"):
+                continue                                  # Python lists for these two are a recorded refusal
+            desc = {"family": fam, "dim": n, "variant": label, "params": p, "x": x}
+            ctx.case("dtype-iid", desc)
+            got = evaluate(lambda: cls(**dict(zip(names, [conv(v) if len(v) > 1 else conv(v)[0] if label != "int-list" else int(v[0]) for v in p])), geometry=n), xa)
+            compare(f"{cls.__name__}:dtype:{label}", desc, base_v, got, F32TOL if "float32" in label else 1e-12, mv, skip=skip)
+        for label, conv in SCALAR_VARIANTS:
+            desc = {"family": fam, "dim": n, "variant": label, "params": ps, "x": xs}
+            ctx.case("dtype-iid", desc)
+            zero_d = label.startswith("0d")
+            # 0-d arrays: only the designated (last, scale-like) parameter
+            objs = [conv(v[0]) if (not zero_d or k == len(ps) - 1 - (1 if fam == "smoothedlaplace" else 0)) else float(v[0]) for k, v in enumerate(ps)]
+            got = evaluate(lambda: cls(**dict(zip(names, objs)), geometry=n), xsa)
+            compare(f"{cls.__name__}:dtype:" + ("0d-array" if zero_d else label), desc, base_s, got, F32TOL if "float32" in label else 1e-12, ms,
+                    model_raises=zero_d and zd.get(fam) == "1", skip=skip)
+        # integer evaluation points
+        if fam not in ("beta", "uniform"):
+            for xl, xo in (("int64-x", xa.astype(np.int64)), ("int-list-x", [int(t) for t in x])):
+                if fam == "invgamma" and any(float(t) != int(t) for t in x):
+                    continue
+                desc = {"family": fam, "dim": n, "variant": xl, "params": p, "x": x}
+                ctx.case("dtype-iid", desc)
+                got = evaluate(lambda: cls(**dict(zip(names, [fobj(v) for v in p])), geometry=n), xo, what=("logpdf", "pdf", "logd"))
+                if xl == "int-list-x" and ("ctor" in got or got["logpdf"][0] == "raise"):
+                    ctx.note(f"{fam}: a Python list as evaluation point is refused ({got})"); continue
+                compare(f"{cls.__name__}:dtype:{xl}", desc, base_v, got, 1e-12, mv)
+
+    # MRFs and Lognormal: scalar parameter variants + integer location / mean
+    for fam in ("gmrf", "lmrf", "cmrf", "lognormal"):
+        n = 3
+        par = float(rng.choice([1, 2, 4])); loc = [float(rng.randint(-2, 2)) for _ in range(n)]
+        x = np.array([dy(rng, 0.25, 3) for _ in range(n)])
+        mk = {"gmrf": lambda l, s_: D.GMRF(l, s_), "lmrf": lambda l, s_: D.LMRF(l, s_), "cmrf": lambda l, s_: D.CMRF(l, s_),
+              "lognormal": lambda l, s_: D.Lognormal(l, s_)}[fam]
+        base = evaluate(lambda: mk(np.array(loc), par), x, what=("logpdf", "pdf", "logd"))
+        for label, conv in SCALAR_VARIANTS:
+            zero_d = label.startswith("0d")
+            desc = {"family": fam, "dim": n, "variant": label, "param": par, "location": loc}
+            ctx.case("dtype-mrf", desc)
+            got = evaluate(lambda: mk(np.array(loc), conv(par)), x, what=("logpdf", "pdf", "logd"))
+            compare(f"{fam}:dtype:" + ("0d-array" if zero_d else label), desc, base, got, F32TOL if "float32" in label else 1e-12,
+                    model_raises=zero_d and zd.get(fam) == "1")
+        for label, conv in VECTOR_VARIANTS:
+            desc = {"family": fam, "dim": n, "variant": "location-" + label, "param": par, "location": loc}
+            ctx.case("dtype-mrf", desc)
+            got = evaluate(lambda: mk(conv(loc), par), x, what=("logpdf", "pdf", "logd"))
+            compare(f"{fam}:dtype:location-{label}", desc, base, got, F32TOL if "float32" in label else 1e-12)
+        if fam == "lognormal":
+            for label, conv in VECTOR_VARIANTS + [("int64-matrix", lambda v: np.diag(v).astype(np.int64) + np.eye(len(v), k=1, dtype=np.int64) + np.eye(len(v), k=-1, dtype=np.int64))]:
+                cv = [float(rng.randint(2, 4)) for _ in range(n)]
+                ref = conv(cv)
+                fl = np.array(ref, dtype=float)
+                desc = {"family": fam, "dim": n, "variant": "cov-" + label, "cov": fl.tolist()}
+                ctx.case("dtype-mrf", desc)
+                b2 = evaluate(lambda: D.Lognormal(np.array(loc), fl), x, what=("logpdf", "pdf", "logd"))
+                got = evaluate(lambda: D.Lognormal(np.array(loc), ref), x, what=("logpdf", "pdf", "logd"))
+                compare(f"lognormal:dtype:cov-{label}", desc, b2, got, F32TOL if "float32" in label else 1e-12)
+
+    # ---------------------------------------------------------------- Gaussian forms, both sides of the sparse threshold
+    forms = ["cov", "prec", "sqrtcov", "sqrtprec"]
+    gjobs, glines = [], []
+    for form in forms:
+        for n in (2, 3, 76, 80):
+            sc = float(rng.choice([1, 2, 4]))
+            vecv = [float(rng.randint(1, 4)) for _ in range(n)]
+            tri = band(n, 3.0, 1.0)
+            objs = []
+            for label, conv in SCALAR_VARIANTS:
+                objs.append(("scalar", label, conv(sc), [[sc]], "scalar"))
+            for label, conv in VECTOR_VARIANTS:
+                objs.append(("vector", label, conv(vecv), [vecv], "vector"))
+            objs.append(("diag", "int64-matrix", np.diag(vecv).astype(np.int64), np.diag(vecv).tolist(), "dense"))
+            objs.append(("dense", "int64-matrix", tri.astype(np.int64), tri.tolist(), "dense"))
+            objs.append(("dense", "int32-matrix", tri.astype(np.int32), tri.tolist(), "dense"))
+            objs.append(("dense", "float32-matrix", tri.astype(np.float32), tri.tolist(), "dense"))
+            objs.append(("sparse-diag", "int64-csr", spa.csr_matrix(np.diag(vecv).astype(np.int64)), np.diag(vecv).tolist(), "sparse"))
+            objs.append(("sparse-diag", "int64-dia", spa.diags(np.array(vecv).astype(np.int64)), np.diag(vecv).tolist(), "sparse"))
+            if n < 10:
+                objs.append(("sparse-full", "int64-csr", spa.csr_matrix(tri.astype(np.int64)), tri.tolist(), "sparse"))
+            mu = [float(rng.randint(-2, 2)) for _ in range(n)]
+            x = [float(rng.randint(-3, 3)) / 2 for _ in range(n)]
+            seen = {}
+            for (kind, label, obj, Mv, mkind) in objs:
+                lk = (mkind, str(Mv)[:40], len(Mv))
+                if kind not in seen:
+                    glines.append(f"gauss {form} {mkind} {n} {qv(x)} {qv(mu)} {qm(Mv)}"); seen[kind] = len(glines) - 1
+                gjobs.append((form, n, kind, label, obj, Mv, mkind, mu, x, seen[kind]))
+    gouts = ctx.lean.drive(glines)
+    base_cache = {}
+    for (form, n, kind, label, obj, Mv, mkind, mu, x, li) in gjobs:
+        out = gouts[li]; t = out.split()
+        xa, mua = np.array(x), np.array(mu)
+        desc = {"form": form, "dim": n, "kind": kind, "variant": label, "M": Mv if n < 10 else "(banded / long)"}
+        ctx.case("dtype-gauss", desc)
+        zero_d = label.startswith("0d")
+        A = np.array(Mv, dtype=float)
+        fobj = float(A[0, 0]) if mkind == "scalar" else (A[0].copy() if mkind == "vector" else (A.copy() if mkind == "dense" else spa.csr_matrix(A)))
+        ck = (form, n, kind)
+        if ck not in base_cache:
+            base_cache[ck] = evaluate(lambda: D.Gaussian(mua.copy(), **{form: fobj}, geometry=n), xa, what=("logpdf", "pdf", "logd", "_logupdf"))
+        base = base_cache[ck]
+        got = evaluate(lambda: D.Gaussian(mua.copy(), **{form: obj}, geometry=n), xa, what=("logpdf", "pdf", "logd", "_logupdf"))
+        key = f"Gaussian:{form}:dtype:{kind}:" + ("0d-array" if zero_d else label) + (":dim>75" if n > 75 else "")
+        if t[0] == "nologdet":
+            # full sparse matrix: only the un-normalised density is offered
+            mism, fail = [], None
+            lu, bl = got.get("_logupdf"), base.get("_logupdf")
+            if lu is None or lu[0] != "value" or not relclose(-0.5 * dec(t[1]), lu[1], 1e-8):
+                mism.append(f"logupdf {lu} vs model {-0.5 * dec(t[1])}")
+                fail = (bl, lu, "un-normalised log-density differs from the float64 version of the same numbers")
+            verdict(ctx, key, desc, not mism, out[:60], mism, fail, "dtype: " + "; ".join(mism))
+            continue
+        mvl = dec(t[4]) if t[0] == "ok" else None
+        compare(key, desc, base, got, F32TOL if "float32" in label else 1e-10, mvl, model_raises=zero_d and zd.get("gaussian") == "1", skip=("_logupdf",))
+    # integer mean / integer evaluation point
+    for form in forms:
+        for n in (3, 76):
+            vecv = np.array([float(rng.randint(1, 4)) for _ in range(n)])
+            mu = np.array([float(rng.randint(-2, 2)) for _ in range(n)]); x = np.array([float(rng.randint(-3, 3)) for _ in range(n)])
+            base = evaluate(lambda: D.Gaussian(mu.copy(), **{form: vecv.copy()}), x, what=("logpdf", "pdf", "logd"))
+            for label, mobj, xobj in (("int64-mean", mu.astype(np.int64), x), ("int-list-mean", [int(v) for v in mu], x), ("int64-x", mu.copy(), x.astype(np.int64)),
+                                      ("pyint-mean", int(mu[0]), x)):
+                b = base if label != "pyint-mean" else evaluate(lambda: D.Gaussian(float(mu[0]), **{form: vecv.copy()}), x, what=("logpdf", "pdf", "logd"))
+                desc = {"form": form, "dim": n, "variant": label}
+                ctx.case("dtype-gauss", desc)
+                got = evaluate(lambda: D.Gaussian(mobj, **{form: vecv.copy()}), xobj, what=("logpdf", "pdf", "logd"))
+                compare(f"Gaussian:{form}:dtype:{label}", desc, b, got, 1e-12)
+    # one covariance, four parameterisations, mixed dtypes: cov / sqrtcov integer, prec / sqrtprec float32 (powers of two: exact)
+    for n in (3, 76):
+        for rep in range(2 * S):
+            std = np.array([float(rng.choice([1, 2, 4, 8])) for _ in range(n)])
+            mu = np.array([float(rng.randint(-2, 2)) for _ in range(n)]); x = mu + std * np.array([dy(rng, -2, 2) for _ in range(n)])
+            ref = float(sps.multivariate_normal(mu, np.diag(std ** 2)).logpdf(x))
+            specs = {"cov:int64": ("cov", (std ** 2).astype(np.int64)), "sqrtcov:int64": ("sqrtcov", std.astype(np.int64)),
+                     "sqrtcov:int-list": ("sqrtcov", [int(v) for v in std]), "sqrtcov:int32": ("sqrtcov", std.astype(np.int32)),
+                     "prec:float32": ("prec", (1 / std ** 2).astype(np.float32)), "sqrtprec:float32": ("sqrtprec", (1 / std).astype(np.float32)),
+                     "cov:int64-matrix": ("cov", np.diag(std ** 2).astype(np.int64)), "sqrtcov:int64-sparse": ("sqrtcov", spa.diags(std.astype(np.int64)))}
+            for lab, (form, obj) in specs.items():
+                desc = {"dim": n, "spec": lab, "std": std.tolist() if n < 10 else "(long)"}
+                ctx.case("dtype-gauss-forms", desc)
+                st, v = call(lambda: D.Gaussian(mu.copy(), **{form: obj}).logpdf(x))
+                if st != "value" or not relclose(ref, v, F32TOL if "float32" in lab else 1e-8):
+                    ctx.fail(f"Gaussian:{form}:dtype:forms-agree:{lab.split(':')[1]}", desc, ref, [st, v],
+                             "the same covariance given with an integer / float32 parameter has a different log-density")
 
 
 def quadrature_section(ctx, D, G, rng, S):
